@@ -11,3 +11,15 @@ pub(crate) fn from_parts(months: i32, days: i32, microseconds: i64) -> Interval 
 pub(crate) fn parts(i: &Interval) -> (i32, i32, i64) {
     (i.months, i.days, i.microseconds)
 }
+
+/// T-ord for Interval, structural form: `cmp` is the order induced by a key function into i128
+/// (the real, private `cmp_value`, used here as an *uninterpreted* key: whatever it computes,
+/// an order of the form K(a).cmp(K(b)) is antisymmetric and transitive because i128's is).
+#[kani::proof]
+fn t_ord_interval_induced_by_key() {
+    let a = from_parts(kani::any(), kani::any(), kani::any());
+    let b = from_parts(kani::any(), kani::any(), kani::any());
+    assert!(a.cmp(&b) == a.cmp_value().cmp(&b.cmp_value()), "T-ord#interval_cmp_induced_by_key");
+    assert!(a.partial_cmp(&b) == Some(a.cmp(&b)), "T-ord#interval_partial_cmp_agrees");
+    std::mem::forget(a); std::mem::forget(b);
+}
